@@ -3,6 +3,9 @@ theorems do and do not cover (copied into the evidence), the trusted base."""
 import json
 import os
 import subprocess
+import sys
+sys.path.insert(0, os.path.dirname(os.path.abspath(__file__)))
+import run_capi  # runners for C15 / C16 (C driver against libkodama.a, both profiles, sanitizers)
 
 TRUSTED_COMMON = [
     "Lean 4.33.0 kernel; axioms limited to propext, Classical.choice, Quot.sound (audited with #print axioms on every property theorem; no sorry/admit/native_decide/bv_decide/axiom in the import closure)",
@@ -34,8 +37,12 @@ _p('C11')
 _p('C12', runs=[('dev', '-checked'), ('release', '-unchecked')])
 _p('C13', runs=[('dev', '-checked'), ('release', '-unchecked')])
 _p('C14')
-_p('C15')
-_p('C16')
+_p('C15', runner=run_capi.runner_c15, driver_exe='kodama-capi-driver', trusted_extra=[
+    "C15: clang 14 / cargo build libkodama.a and the C driver faithfully; the Rust reference helper (capi_ref) calls kodama::linkage as any Rust caller would",
+])
+_p('C16', runner=run_capi.runner_c16, driver_exe='kodama-capi-driver', trusted_extra=[
+    "C16: memory validity (no invalid access, no leak, no cross-thread interference) is OBSERVED by AddressSanitizer + LeakSanitizer (thorough: valgrind memcheck) on the generated scripts, not proved; the Rust code is not sanitizer-instrumented (its heap traffic goes through the intercepted malloc/free, all reads of returned storage are made by the instrumented C driver)",
+])
 def runner_c17(pid, tier, seed, driver, BUILD, REPO):
     """C17 is decided entirely by theorems over translated data; the 'cases' are the rows of the
     generated tables (what the theorems quantify over)."""
@@ -126,6 +133,8 @@ def evidence(pid, tier, seed, pr, sessions, wall, violations, known_hits):
 
 
 def replay(pid, path, exe, driver):
+    if pid in ('C15', 'C16'):
+        return run_capi.replay(pid, path, driver)
     cmd = [exe, pid, '--replay', path, '--driver', driver or 'none']
     p = subprocess.run(cmd)
     return p.returncode
